@@ -19,6 +19,7 @@ EXPLANATION = (
     "exactly on the 'contended' constant that sleepers store and wait on, C01.8 a sleeper has stored or observed that constant on every path to the wait and re-checks in a loop, "
     "C01.9 the wait helper forwards word and expected value and returns after a wake, C01.10 wait and wake use the same futex flavour (private/shared), "
     "C01.11 try_lock reaches no blocking call, has no loop and uses the strong CAS. "
+    "C01.12 type-level witnesses (compile_fail doctests, each with a compiling twin): a MutexGuard is not Send, the protected value is private, the guard borrows the mutex; "
     "NOT decided: absence of lost wake-ups / termination of lock() for every interleaving (liveness of the composed protocol), fairness, client deadlocks.")
 ASSUMPTIONS = ["Linux futex semantics (FUTEX_WAIT compares and sleeps atomically; wakes are keyed by flavour)",
                "Rust/C++11 memory model: an acquire RMW reading from a release RMW (or its release sequence) synchronises"]
@@ -31,6 +32,9 @@ def run(ck, progs, tier):
     for cfgname, prog in progs.items():
         ck.set_config(prog)
         run_one(ck, prog)
+    # type-level witnesses (compile_fail doctests with compiling twins) against the public API of the tree under analysis
+    from ..engine import witness
+    witness.check(ck, ck.repo, "C01", "C01.12")
 
 
 def run_one(ck, prog):
